@@ -863,6 +863,11 @@ static ares_status_t ares_dns_write_rr_uri(ares_buf_t          *buf,
     return ARES_EFORMERR;
   }
 
+  /* The parser only accepts a printable target */
+  if (!ares_str_isprint(target, ares_strlen(target))) {
+    return ARES_EBADSTR;
+  }
+
   return ares_buf_append(buf, (const unsigned char *)target,
                          ares_strlen(target));
 }
